@@ -92,6 +92,13 @@ def corpus():
                 if cls != "kPathCoverCycles":
                     k2.update({"flow_attr": "flow", "weight_type": "int"})
                 out.append({"cls": cls, "inst": {"cls": cls, "spec": sp, "kw": k2}})
+    # node-weighted rings (no natural source or sink) entered/left through additional start/end nodes
+    for n_ in (2, 3, 4):
+        rn = [f"r{i}" for i in range(n_)]; re_ = [(rn[i], rn[(i + 1) % n_]) for i in range(n_)]
+        sp = gen.spec(rn, re_, nattr={v: {"flow": 3} for v in rn})
+        for cls, kw in (("MinFlowDecompCycles", {}), ("kFlowDecompCycles", {"k": 1}), ("kMinPathErrorCycles", {"k": 1}), ("kLeastAbsErrorsCycles", {"k": 1})):
+            k2 = dict(kw); k2.update({"flow_attr": "flow", "weight_type": "int", "flow_attr_origin": "node", "additional_starts": [rn[0]], "additional_ends": [rn[-1]]})
+            out.append({"cls": cls, "inst": {"cls": cls, "spec": sp, "kw": k2}})
     return out
 
 
